@@ -28,6 +28,22 @@ def sterm(v, n):
     return sview(v.e, n)
 
 
+def _as_bool01(v):
+    """Bool term c when v is (syntactically) If(c, 1, 0) or the constant 0/1"""
+    if not isinstance(v, SV):
+        return z3.BoolVal(bool(v)) if v in (0, 1) else None
+    e = v._e
+    if e is None or not z3.is_app(e) or e.decl().kind() != z3.Z3_OP_ITE:
+        return None
+    c, x, y = e.children()
+    if z3.is_int_value(x) and z3.is_int_value(y):
+        if x.as_long() == 1 and y.as_long() == 0:
+            return c
+        if x.as_long() == 0 and y.as_long() == 1:
+            return z3.Not(c)
+    return None
+
+
 def install(E):
     from .models import GuardedPtr
     # ------------------------------------------------------------------ integer binops
@@ -184,9 +200,19 @@ def install(E):
                 return 0
         if cb and b == 1 and op in ("udiv", "sdiv"):
             return a
+        if op in ("and", "or", "xor", "mul"):
+            # 0/1-valued operands (zext of i1): stay in the Boolean world
+            ba, bb = _as_bool01(a), _as_bool01(b)
+            if ba is not None and bb is not None:
+                c = z3.simplify(z3.And(ba, bb)) if op in ("and", "mul") else z3.Or(ba, bb) if op == "or" else z3.Xor(ba, bb)
+                return SV(z3.If(c, IV(1), IV(0)), w=n)
         M = _M(n)
         nuw = "nuw" in flags
         nsw = "nsw" in flags
+        if op == "mul":
+            ba, bb = _as_bool01(a), _as_bool01(b)
+            if ba is not None and bb is not None:
+                return SV(z3.If(z3.And(ba, bb), IV(1), IV(0)), w=n)
         if op in ("add", "sub", "mul") and nsw and not nuw:
             sa, sb = sterm(a, n), sterm(b, n)
             r = sa + sb if op == "add" else sa - sb if op == "sub" else sa * sb
@@ -428,12 +454,23 @@ def install(E):
             if da or db:
                 d = _dcomb(da, db, lambda x, y: x * eb + ea * y)
         elif op == "fdiv":
+            havoc = None
             if isinstance(b, SV):
-                self.add_obligation(st, "def:division-by-nonzero", "def", eb != 0)
-                st.assume(eb != 0)
+                z = self.feasible(st, eb == 0, timeout_ms=500)
+                if z is False:
+                    self.stats["def_proved_inline"] = self.stats.get("def_proved_inline", 0) + 1
+                else:
+                    self.add_obligation(st, "def:division-by-nonzero", "def", eb != 0)
+                    if z is True:
+                        # x/0 is inf/NaN in IEEE: continue with an unconstrained value instead of cutting the path
+                        havoc = self.fresh("divzero", z3.RealSort())
+                    else:
+                        st.assume(eb != 0)
             elif b == 0:
                 raise Inconclusive("division by concrete zero in real domain")
             e = ea / eb
+            if havoc is not None:
+                e = z3.If(eb == 0, havoc, e)
             if da or db:
                 d = _dcomb(da, db, lambda x, y: (x * eb - ea * y) / (eb * eb))
         else:
@@ -531,7 +568,13 @@ def install(E):
                 return SV(z3.Extract(0, 0, e) == 1)
             return SV(z3.Extract(n - 1, 0, e))
         if n == 1:
+            b = _as_bool01(v)
+            if b is not None:
+                return SV(b)
             return SV(e % 2 == 1)
+        b = _as_bool01(v)
+        if b is not None:
+            return SV(e, w=n)
         return SV(e % _M(n), w=n)
 
     def sym_zext(self, v, sn, n):
